@@ -15,6 +15,16 @@ Proof. unfold is_secure. intros ->. reflexivity. Qed.
 Lemma is_secure_false xs : is_lit xs "true" = false -> is_secure xs = (false, None).
 Proof. unfold is_secure. intros ->. reflexivity. Qed.
 
+(* application entries never look like the plugin's entries *)
+Lemma plugin_view_app_only m :
+  Forall (fun k => match k with AppKey _ => True | _ => False end) m ->
+  plugin_view true m = mkSwap false false.
+Proof.
+  intros H. unfold plugin_view, has_key. f_equal.
+  - induction H as [|k m Hk _ IH]; cbn [existsb]; [reflexivity|]. destruct k; try contradiction. exact IH.
+  - induction H as [|k m Hk _ IH]; cbn [existsb]; [reflexivity|]. destruct k; try contradiction. exact IH.
+Qed.
+
 Section Secure.
   Variable key : Type.
   Variable V : Type.
@@ -222,6 +232,12 @@ Section Secure.
   Proof.
     rewrite serve_seq_independent. apply map_ext. intros [[[xs xa] w] h]. apply serve_call_sw_empty.
   Qed.
+
+  (* application data in the session swap, whatever its string keys, is invisible to the plugin *)
+  Lemma app_swap_invisible ks m xs xa w h :
+    Forall (fun k => match k with AppKey _ => True | _ => False end) m ->
+    fst (serve_call_sw ks (plugin_view true m) xs xa w h) = serve_call ks xs xa w h.
+  Proof. intros H. rewrite (plugin_view_app_only m H). apply serve_call_sw_empty. Qed.
 
   (* the handler's returned status and the hook's test, composed: whatever the kind of handler, a
      nil status and a non-nil status with code OK both leave ctx.Status() nil *)
@@ -433,4 +449,16 @@ Lemma shared_swap_leaks :
   map (s_rep_wire bytes) (toy_seq false ms) = [Some (str "vres"); Some (str "res")] /\
   map (s_rep_wire bytes) (toy_seq true ms) = [Some (str "vres"); Some (str "vres")] /\
   map (s_rep_secure bytes) (toy_seq true ms) = [Some (str "true"); Some (str "true")].
+Proof. vm_compute. auto. Qed.
+
+(* The variant whose swap keys are the plain strings "" and "0": application data stored under "0"
+   is taken for the accept entry and an unmarked call gets an enveloped reply. *)
+Lemma untyped_keys_collide :
+  let h := mkHandler bytes (fun _ => str "res") KStruct RetNil None in
+  let serve typed := fst (serve_call_sw unit bytes [] (fun v : bytes => Some v) (fun b : bytes => Some b)
+            (fun (_ : unit) (x : bytes) => x) (fun (_ : unit) (x : bytes) => Some x)
+            (fun _ : unit => str "v") (fun v c : bytes => Some (v ++ c)) toy_unwrap tt
+            (plugin_view typed [AppKey (str "0")]) None None (str "arg") h) in
+  s_rep_wire bytes (serve true) = Some (str "res") /\ s_rep_secure bytes (serve true) = None /\
+  s_rep_wire bytes (serve false) = Some (str "vres") /\ s_rep_secure bytes (serve false) = Some (str "true").
 Proof. vm_compute. auto. Qed.
